@@ -84,6 +84,16 @@ theorem SClaim.actor0 {s s' : State} {e : Event} (hS : InvS s)
   all_goals (try (
     left
     exact ⟨hc.1, caused_of_deadline (hc.2.1 rfl) (hc.2.2 rfl) (by assumption) (by assumption)⟩))
+  -- nsync_note_new finds the parent notified
+  all_goals (try (
+    left
+    obtain ⟨h1, h2, h3, _⟩ := hc
+    refine ⟨h1, h2, h3, fun _ => hS.caused_of_notified h2 (notified_of_ntime (by assumption))⟩))
+  -- nsync_note_new: positions after the load / the store
+  all_goals (try (
+    left
+    obtain ⟨h1, h2, h3, _⟩ := hc
+    exact ⟨h1, h2, h3, fun hp => by cases hp⟩))
   -- malloc
   · rename_i k hfresh
     right
@@ -92,7 +102,7 @@ theorem SClaim.actor0 {s s' : State} {e : Event} (hS : InvS s)
     subst hp
     have hp := hc p rfl
     have hne : p ≠ k := fun e => by subst e; simp [hp] at hfresh
-    refine ⟨by simp, by simp [hne, hp], ?_⟩
+    refine ⟨by simp, by simp [hne, hp], ?_, by simp⟩
     simp [State.ancOf, upd_apply, hne]
 
 end Note
